@@ -361,3 +361,98 @@ PROPS["C18"] = {
     "rule": hist_rule("profile removal", "at least one present event was removed or vanished"),
     "assumptions": [],
 }
+
+
+# ------------------------------------------------------------------------------------------
+# crash points, schedules, reference validity
+
+def c13_legs(tier):
+    t = 7200 if tier == "thorough" else 900
+    legs = [leg("debug", "debug", ["c13"], timeout=t), leg("release", "release", ["c13"], timeout=t, mandatory=False)]
+    if tier == "thorough":
+        for i in range(6):
+            legs.append(leg(f"debug-s{i+1}", "debug", ["c13", "--seed-add", str(i + 1)], timeout=t, mandatory=False))
+    return legs
+
+
+PROPS["C13"] = {
+    "level": "fault_enumeration",
+    "technique": "fault injection + runtime monitoring: child process SIGKILLs itself at enumerated verif-point occurrences (and is killed at random instants), parent reopens the directory and checks it against the reference model of completed / completed+interrupted calls, then continues model-checked operations",
+    "level_text": ("A concrete history (stores with growth, replacements, deletions, removals, vanish) is executed by a "
+                   "child process that journals BEGIN/END of every call with write(2). Census run: the ordered list of "
+                   "verif point hits. Kill runs: for each selected hit (quick: first, middle and last occurrence of "
+                   "every distinct point name; thorough: every hit) a fresh child kills itself with SIGKILL at that "
+                   "hit, starting from an empty directory (creation) and from a populated one (open). The parent then "
+                   "opens the directory: Store::new must succeed; every id, marker, holder, index count must equal "
+                   "the model of the completed calls, or of the completed calls plus the interrupted one (vanish: "
+                   "minus a subset of its targets); every offset returned by a completed store must read back "
+                   "byte-identical; ten further model-checked operations incl. file growth and reopen must behave. "
+                   "Asynchronous leg: the same child with jitter is killed by the parent after a random delay, "
+                   "reaching instants inside LMDB, heed and mmap-append. Debug build (2 KiB chunks: growth every few "
+                   "events) is the mandatory leg."),
+    "level_note": "process kill only (page cache intact), not power loss; instants between verif points are sampled by the asynchronous leg, not enumerated; trusts the kernel's MAP_SHARED/page-cache coherence and LMDB's own crash consistency for process death",
+    "legs": c13_legs,
+    "rule": ("a trial = (history, start state: empty or populated directory, kill at the k-th verif point hit or after a "
+             "random delay). distinct = hash of (point name, history, start, hit index) resp. of the async trial "
+             "parameters; every trial in which the child really died by SIGKILL is non-trivial. coverage.extra lists "
+             "trials per point name and the before/after images observed."),
+    "assumptions": ["'any instant' = every verif point occurrence + sampled asynchronous instants"],
+}
+
+
+def c14_legs(tier):
+    t = 7200 if tier == "thorough" else 900
+    legs = [
+        leg("release", "release", ["c14"], timeout=t),
+        leg("growth-debug", "debug", ["c14", "--part", "growth"], timeout=t),
+    ]
+    if tier == "thorough":
+        legs.append(leg("debug", "debug", ["c14"], timeout=t, mandatory=False))
+        legs.append(leg("asan-stress", "asan", ["c14", "--part", "stress", "--tier-override", "quick"], timeout=t, mandatory=False))
+        for i in range(4):
+            legs.append(leg(f"release-s{i+1}", "release", ["c14", "--part", "stress", "--seed-add", str(i + 1)], timeout=t, mandatory=False))
+    return legs
+
+
+PROPS["C14"] = {
+    "level": "exploration",
+    "technique": "runtime monitoring: schedule control at verif points (pause A at each point, run B/C, search a real-time-respecting serial order against the reference model), multi-core stress with an offline history checker (commit order = offset order, real-time windows), gdb-exhibited lock cycles for hangs, child-process growth scenarios",
+    "level_text": ("Leg 1 (deterministic): for ~40 catalogued operation pairs/triples on one store (same event 2-3x; "
+                   "older/newer/equal events for one replaceable or parameterised address, with a query; store vs "
+                   "find_events/get_event_by_id/has_event and the reverse; remove vs query; deletion request vs store "
+                   "or read of its target; address deletion vs store at the address; vanish vs store) operation A is "
+                   "paused at each of its verif points (quick: first and last occurrence of each point name; thorough: "
+                   "every hit) while the others run or block; every result and the final state must be explained by "
+                   "some serial order that respects real time. Leg 2: 8 threads x 10-120 rounds, shared pool with "
+                   "replaceable races, deletions and the same event submitted by all threads at a barrier, random "
+                   "jitter at all points; offline: successful stores replayed in offset order through the model "
+                   "(none may be forbidden at its commit position), every failed store and every read must fit some "
+                   "committed state within its real-time window, final state equal. Leg 3: any run without progress "
+                   "for 30 s is examined with gdb; only an exhibited wait cycle is a violation. Growth scenarios "
+                   "(debug chunks, child processes): a growing writer against 12 readers taking addresses only (g1: "
+                   "bounded progress) and comparing bytes through query results (g2)."),
+    "level_note": "legs 1-2 run in release with < 4 MiB appended so the map is never resized there; remove_event and vanish are exercised in leg 1 only (no offset to order them by); vanish overlapping a query is not required to be all-or-nothing (it is a sequence of removals by design); TSan is not usable as an oracle here (DESIGN.md §2)",
+    "legs": c14_legs,
+    "parallel": 4,
+    "rule": ("leg 1: distinct (scenario, pause point, occurrence, others blocked/ran) tuples; leg 2: distinct stress rounds "
+             "(hash of the commit order); growth: runs. All are non-trivial. Counters: schedules where B blocked behind "
+             "A vs ran while A was parked, operations with one vs several candidate states, base moves observed."),
+    "assumptions": ["'all interleavings' = all pause-point schedules of <= 3 catalogued operations + randomised stress",
+                    "'operations complete' = bounded progress; a negative verdict needs an exhibited lock cycle"],
+}
+
+PROPS["C15"] = {
+    "level": "exploration",
+    "technique": "runtime monitoring: address-stability monitor (fresh reference vs recorded address of every earlier reference after each store, own thread and another thread), corroborated with /proc/self/maps; byte comparison at stable addresses; debug+release",
+    "level_text": ("References are taken by offset, by id and from query results and recorded as (address, length, "
+                   "offset, byte copy, growth count); after every later store (on the same thread or on another one), "
+                   "across at least three growth steps per history (debug: 2 KiB steps; release: ~60 KiB events across "
+                   "4 MiB steps), a fresh reference for the same offset is obtained and compared by address - the stale "
+                   "reference is never read through - and on a mismatch the old range is looked up in /proc/self/maps; "
+                   "at equal addresses the bytes are compared with the recorded copy."),
+    "level_note": "ASan/valgrind/Miri cannot see munmap-based dangling, hence the address/maps oracle; whether mremap moves the mapping depends on the address-space layout of the run",
+    "legs": lambda tier: both("c15", timeout=3600 if tier == "thorough" else 600),
+    "rule": ("histories of 60 (debug) / 230 (release) stores with up to 40 tracked references; distinct = hash of "
+             "(index, event size, threaded); non-trivial = at least one growth step happened after a reference was taken."),
+    "assumptions": ["a reference is 'valid' iff the live mapping still has its offset at the same address and the bytes are unchanged"],
+}
